@@ -145,7 +145,7 @@ def run(ctx):
     regenerate(ctx)
     proof_err = None
     try:
-        ctx.prove(PROP)
+        ctx.prove(PROP, extra_targets=['theories/Core/Corr.vo', 'theories/Core/Cost.vo'])
     except CoqFailure as e:
         proof_err = e
     failures = 0
